@@ -42,6 +42,14 @@ def main():
             r = sh([PY, demo], env=env, cwd=wt, timeout=600)
             out["demo_clean_exit"] = r.returncode
         r = sh(["git", "-C", wt, "apply", os.path.join(d, "patch.diff")])
+        if r.returncode:
+            # /repo moved on since the change was written (later fix: commits): merge it three-way
+            r = sh(["git", "-C", wt, "apply", "--3way", os.path.join(d, "patch.diff")])
+            out["patch_applied_three_way"] = r.returncode == 0
+            conflicts = sh(["git", "-C", wt, "diff", "--name-only", "--diff-filter=U"]).stdout.strip()
+            if conflicts:
+                r.returncode = 1
+                r.stderr = f"conflicts in {conflicts}"
         out["patch_applies"] = r.returncode == 0
         if r.returncode:
             out["apply_error"] = r.stderr[-500:]
